@@ -57,7 +57,8 @@ def _nontrivial_signet(v):
 def c01(run, vc):
     tier = run.tier
     tables = _prep(run, vc)
-    cfg = "MC_SigNet_single_%s.cfg" % tier
+    # the honest-only instance: no adversary moves, more keys, messages that coincide with key bytes and tags
+    cfg = "MC_SigNet_honest_%s.cfg" % tier
     r, bad = _tlc_stage(run, vc, "MC_SigNet", cfg, ["Sign", ("Verify", "Ok")])
     if bad:
         return run.finish()
@@ -709,6 +710,7 @@ def c05(run, vc):
         ("MC_SigNet", "MC_SigNet_pop_%s.cfg" % tier, lambda v: (v["act"] == "Verify") or (v["act"] == "PopVerify" and any(o["op"] == "AsPop" for o in v["proof"]["ops"])), "a signature over the public-key bytes presented as a proof of possession and a proof of possession presented as a signature, every scheme"),
         ("MC_Pok", "MC_Pok_%s.cfg" % tier, lambda v: v["pert"] in ("label", "pop_as_sig", "cross_forge") or (v["pert"] == "none" and v["scheme"] != "Aug" and v["act"] in ("Pok", "PokTs")), "a proof of knowledge relabelled to another scheme; a timestamp proof for another scheme forged from a challenge obtained for another commitment; a proof of possession presented as a signature inside a proof of knowledge; honest proofs of the Basic and PoP schemes (the tag the prover and the verifier use is the scheme's; the MessageAugmentation proof is finding D6 under C10)"),
         ("MC_SignCrypt", "MC_SignCrypt_%s.cfg" % tier, lambda v: v["act"] in ("IsValid", "Decrypt") and any(o["op"] == "Relabel" for o in v["ct"]["ops"]), "a signcryption ciphertext relabelled to each other scheme"),
+        ("MC_Codec", "MC_Codec_%s.cfg" % tier, lambda v: v["act"] == "Codec" and v["mut"]["kind"] == "tag" and v["mut"]["field"] in ("variant", "scheme"), "an encoding whose scheme tag is rewritten decodes (if at all) to a value that is not equal to the original: the label is part of the value"),
         ("MC_TimeLock", "MC_TimeLock_%s.cfg" % tier, lambda v: v["act"] == "TLDecrypt" and (v["relabelled"] or v["sig"]["scheme"] != v["ct"]["scheme0"] or v["sig"]["label"] != v["sig"]["scheme"]) and v["sig"]["label"] == v["sig"]["scheme"], "a time-lock ciphertext opened with a genuine signature of another scheme, and a relabelled ciphertext"),
     ])
     return run.finish(rule="vectors = every transition of the SigNet, Pok, SignCrypt and TimeLock models in which the artefact's scheme label or purpose differs from the one it was made under (all ordered scheme pairs x keys x messages incl. the public-key bytes); TLC checks Separated, Distinct and IetfConform; the tag constants the library exposes are validated by TLC against spec/Tags.tla and for pairwise distinctness; the equality-pattern (Bind) rule of the SigNet traces independently rejects collapsed tags",
